@@ -12,12 +12,15 @@ pub fn main(args: &[String]) {
     let prefix = arg(args, "--prefix", "node-sim");
     std::fs::create_dir_all(&dir).unwrap();
     let shards: Vec<Shard> = (0..nsh).map(|k| Shard::create(&dir, &prefix, k).with_meta(&dir, &prefix, k)).collect();
+    let mut pel: Vec<Shard> = (0..nsh).map(|k| Shard::create(&dir, "pel-sim", k)).collect();
     let mut rec = Recorder { shards, rr: 0, calls: 0, panics: Default::default(), hist: Default::default(), enabled: true };
     for k in 0..runs {
         let mut sim = Sim::new(seed.wrapping_mul(1_000_003).wrapping_add(k as u64), rec);
         sim.keep_trace = arg(args, "--trace", "0") != "0";
         sim.trace_tail = arg(args, "--trace", "0").parse().unwrap_or(60);
         sim.run(steps);
+        let (c, i) = sim.pt.lines();
+        pel[k % nsh].put("pelection", &c, &i);
         rec = sim.rec;
     }
     let mut total = 0;
@@ -25,6 +28,9 @@ pub fn main(args: &[String]) {
     let panics = rec.panics.clone();
     for s in rec.shards {
         total += s.finish();
+    }
+    for s in pel {
+        s.finish();
     }
     println!("cases={}", total);
     for (k, v) in hist {
